@@ -1,7 +1,10 @@
 #!/usr/bin/env python3
 """C07 — board read access: proofs in coq/Props/C07.v; the decision table (2^16 rows, inconsistent rows pruned)
 is materialised in a scratch BBS environment and pushed through every read entry point of ptt and a subset of
-the bbs wrappers; allow / deny / mask must equal the extracted model and the specification."""
+the bbs wrappers; allow / deny / mask must equal the extracted model and the specification. A sample of rows that holds every
+(deciding clause x administers x named moderator) class is run again on every degenerate board content (no article at all,
+nothing pinned, pinned only, both; files / counters there or not): the verdict of an entry point — read from the error value,
+never from an empty payload — must be the rule's on every content; and the listings on empty / singleton candidate lists."""
 import os, re, sys
 from concurrent.futures import ThreadPoolExecutor
 sys.path.insert(0, os.path.join(os.path.dirname(os.path.abspath(__file__)), "..", "lib"))
@@ -30,7 +33,7 @@ ELSEWHERE = {
     "CrossPost": "write path (C08): read guard on the source board",
     "Recommend": "write path (C08/C10): read guard first",
     "NewBoard": "board creation (C12): returns the summary of the board just created by a board administrator",
-    "LoadClassBoards": "class listing: filter `state != INVALID || groupOp` as in the modelled listings; not among the property's observation points (reported as unmodelled)",
+    "LoadClassBoards": "class listing: filter `state != INVALID || groupOp` as in the modelled listings; not among the property's observation points (reported as unmodelled; only the class without children is probed, op 6)",
     "LoadFullClassBoards": "class listing: same filter; not among the property's observation points (reported as unmodelled)",
     "LoadGeneralArticlesSameCreateTime": "exported helper without a caller argument: probed by op 4 (known finding)",
     "DeleteArticles": "write path: moderator/owner checks of its own",
@@ -109,6 +112,52 @@ def materialise(r, rng, group=False):
     if group:
         ba |= rng.choice([B["GROUPBOARD"], B["SYMBOLIC"], B["GROUPBOARD"] | B["SYMBOLIC"]])
     return "%d %d %d %d %d|%d %d" % (ul, r["uover18"], r["inbm"], r["friend"], r["namedbm"], ba, bl), ba
+
+
+# content bits of op 5 (the driver's c07Has*): what the target board holds when the entry points are called
+C_INDEX, C_PINNED, C_BODY, C_TEMPLATE, C_LOADED = 1, 2, 4, 8, 16
+CONTENT_NAMES = {0: "no article at all", C_INDEX: "articles, nothing pinned", C_PINNED: "pinned articles only", C_INDEX | C_PINNED: "articles and pinned articles"}
+CONTENT_EPS = ARTICLE_EPS + BBS_EPS
+
+
+def describe_content(cb):
+    parts = [CONTENT_NAMES[cb & 3],
+             "article file " + ("present" if cb & C_BODY else "absent"), "post template " + ("present" if cb & C_TEMPLATE else "absent"),
+             "pinned counter of the segment " + ("loaded" if cb & C_LOADED else "not loaded yet (0)")]
+    return "; ".join(parts)
+
+
+def reason_class(r):
+    """which clause of the rule decides the row (written from the property text) x the two listing-only categories"""
+    if r["sysop"]:
+        why = "allow:sysop"
+    elif (r["police"] or r["policeman"]) and r["levelbm"]:
+        why = "allow:police"
+    elif r["basic"] and r["verified"] and r["inbm"]:
+        why = "allow:moderator"
+    elif r["hidden"]:
+        why = "allow:hidden-friend" if r["friend"] else ("deny:hidden-restricted" if r["postmask"] else "allow:hidden-unrestricted")
+    elif r["bover18"] and not r["uover18"]:
+        why = "deny:over18"
+    elif not r["level0"] and not r["postmask"] and not r["haslevel"]:
+        why = "deny:level"
+    else:
+        why = "allow:ordinary"
+    return (why, r["permboard"], r["namedbm"])
+
+
+def reference_content(mr, cb):
+    """what the ten article entry points answer on content cb, written from the property text and the documented
+    meaning of an empty index / a missing file: (error class, payload size) per entry point"""
+    if not mr:
+        refuse = [(0, 0)] * 5
+        return [(1, 0)] + refuse + [(1, 0)] + [refuse[0], refuse[1], refuse[3]]
+    general = (1, 2 if cb & C_INDEX else 0)
+    pinned = (1, 1 if (cb & C_PINNED and cb & C_LOADED) else 0)
+    find = (1, 1) if cb & C_INDEX else (12, 0)
+    body = (1, 196) if cb & C_BODY else (13, 0)
+    tmpl = (1, 196) if cb & C_TEMPLATE else (13, 0)
+    return [(1, 1), general, pinned, find, body, tmpl, (1, 1), general, pinned, body]
 
 
 def reachable_entry_points(repo):
@@ -229,6 +278,113 @@ def main():
     deny = next(k for k, (r, _, _, g) in enumerate(table) if not spec_may_list(r) and not g)
     c.sample({"row": l1[deny], "impl": o1[deny], "spec": "deny"})
 
+    # ---------------------------------------------------------------- the entry points on degenerate board content
+    # Every article entry point on boards holding (i) nothing, (ii) articles but nothing pinned, (iii) pinned articles
+    # only, (iv) both — crossed with article file / template present or not and the pinned counter loaded or not —
+    # for a sample of rows that contains every (deciding clause x administers x named moderator) class. Allowed vs
+    # refused is read from the error value (ErrNotPermitted vs anything else), never from an empty payload.
+    base_rows = [(r, t) for (r, t, _, g) in table[:n_consistent]]
+    by_class = {}
+    for k in rng.sample(range(n_consistent), n_consistent):
+        by_class.setdefault(reason_class(base_rows[k][0]), []).append(k)
+    per_class = 60 if thorough else 25
+    picked = sorted(set(k for ks in by_class.values() for k in ks[:per_class]) | set(rng.sample(range(n_consistent), 3000 if thorough else 600)))
+    all_contents = list(range(32))
+    main_contents = [C_LOADED | C_BODY | C_TEMPLATE | m for m in (0, C_INDEX, C_PINNED, C_INDEX | C_PINNED)] + [0, C_INDEX, C_LOADED, C_LOADED | C_INDEX]
+    l5 = ["5 %d|%s" % (cb, base_rows[k][1]) for cb in all_contents for k in picked]
+    meta5 = [(cb, base_rows[k][0]) for cb in all_contents for k in picked]
+    if thorough:                                     # thorough: every consistent row on the four contents (and the bare ones)
+        picked_set = set(picked)
+        rest = [k for k in range(n_consistent) if k not in picked_set]
+        l5 += ["5 %d|%s" % (cb, base_rows[k][1]) for cb in main_contents for k in rest]
+        meta5 += [(cb, base_rows[k][0]) for cb in main_contents for k in rest]
+    o5 = run_impl_par(l5)
+    c.count(len(l5) * 10, "degenerate content: rows x contents x 10 article entry points")
+    if model:
+        m5 = vf.run_model(model, l5)
+        vf.correspond(c, "entry points x board content", l5, o5, m5, describe=lambda ln: describe_content(int(ln.split("|")[0].split()[1])))
+    content_cov = {}
+    wrong_verdict = {}                               # entry point -> [(content, case, got, class, payload, rule, expected)]
+    for k5, ((cb, r), line, o) in enumerate(zip(meta5, l5, o5)):
+        f = o.split()
+        mr = spec_may_read(r)
+        want = reference_content(mr, cb)
+        exp = {"expected": " ".join(["0"] + ["%d %d" % w for w in want])}
+        content_cov[(reason_class(r)[0], cb & 3)] = content_cov.get((reason_class(r)[0], cb & 3), 0) + 1
+        c.nontrivial(("content", cb) + tuple(r[k] for k in FIELDS))
+        if f[0] != "0" or len(f) != 21:
+            c.violation("entry-point-crash", "an article entry point crashed / stalled on a board with %s; row %s: %s" % (describe_content(cb), line, o),
+                        dict({"cases": [line], "got": o, "content": describe_content(cb)}, **exp))
+            continue
+        for j, name in enumerate(CONTENT_EPS):
+            cls, n = int(f[1 + 2 * j]), int(f[2 + 2 * j])
+            if name.endswith("IsBoardValidUser"):
+                refused, leak = (cls == 1 and n == 0), False
+                if cls != 1:
+                    c.violation("entry-content:" + name, "%s returned an error (class %d) instead of a verdict on a board with %s; row %s" % (name, cls, describe_content(cb), line),
+                                dict({"cases": [line], "got": o, "content": describe_content(cb)}, **exp))
+                    continue
+            else:
+                refused, leak = cls == 0, (cls == 0 and n != 0)
+            if refused != (not mr):
+                wrong_verdict.setdefault(name, []).append((cb, line, o, cls, n, mr, exp["expected"]))
+            elif leak:
+                c.violation("entry-content-leak:" + name, "%s refuses and still returns a payload of %d on a board with %s; row %s" % (name, n, describe_content(cb), line),
+                            dict({"cases": [line], "got": o, "content": describe_content(cb)}, **exp))
+            elif (cls, n) != want[j]:
+                # allowed and answered, but not with the content the board holds
+                c.violation("entry-content-data:" + name, "%s answered (error class %d, payload %d) where the content (%s) prescribes %s; row %s" % (name, cls, n, describe_content(cb), want[j], line),
+                            dict({"cases": [line], "got": o, "content": describe_content(cb)}, **exp))
+    for name, bad in sorted(wrong_verdict.items()):
+        # one violation per entry point; the replay names every content on which the verdict is wrong, the example is the most ordinary one
+        bad_contents = sorted(set(b[0] for b in bad))
+        shown = []
+        for b in sorted(bad, key=lambda b: (-b[0], b[1])):
+            if b[0] not in [x[0] for x in shown]:
+                shown.append(b)
+        cb, line, o, cls, n, mr, expected = shown[0]
+        c.violation("entry-content:" + name,
+                    "%s %s (error class %d, payload %d) where the rule says %s, on a board with %s; row %s. The verdict must not depend on what the board "
+                    "holds; it is wrong on %d of the %d contents tried (%d cases), right on the others"
+                    % (name, "refuses" if cls == 0 or (name.endswith("IsBoardValidUser") and n == 0) else "does not refuse", cls, n, "allow" if mr else "refuse",
+                       describe_content(cb), line, len(bad_contents), len(all_contents), len(bad)),
+                    {"cases": [b[1] for b in shown[:8]], "got": o, "expected": expected, "entry_point": name, "rule": "allow" if mr else "refuse",
+                     "content": describe_content(cb),
+                     "contents_with_wrong_verdict": {str(k): describe_content(k) for k in bad_contents},
+                     "contents_with_right_verdict": [k for k in all_contents if k not in bad_contents],
+                     "legend": "case: 5 <content bits: 1 index, 2 pinned index, 4 article file, 8 template, 16 pinned counter loaded>|<user level> <over18> <in moderator cache> <friend> <named moderator>|<board attr> <board level>; "
+                               "answer: status, then (error class, payload) for " + ", ".join(CONTENT_EPS) + "; class 0 = ErrNotPermitted, 1 = nil, 12 = no record, 13 = no such file"})
+    c.cov["distribution"].update({"content %s / %s" % (why, CONTENT_NAMES[m]): v for (why, m), v in sorted(content_cov.items())})
+    c.cov["content_classes"] = {"reason classes": len(by_class), "rows sampled": len(picked), "contents": len(all_contents)}
+    k_s = next(k for k, (cb, r) in enumerate(meta5) if cb == C_LOADED | C_INDEX and not spec_may_read(r))
+    c.sample({"row": l5[k_s], "impl": o5[k_s], "content": describe_content(meta5[k_s][0]), "spec": "deny",
+              "legend": "status | (error class, payload) x 6 ptt + 4 bbs article entry points; class 0 = not permitted, 1 = nil, 12 = no record, 13 = no such file"})
+
+    # ---------------------------------------------------------------- listings where there is nothing (else) to list
+    l6 = ["6 %d|%s" % (v, base_rows[k][1]) for v in (0, 1) for k in picked]
+    meta6 = [(v, base_rows[k][0]) for v in (0, 1) for k in picked]
+    o6 = run_impl_par(l6)
+    c.count(len(l6) * 5, "degenerate listings: rows x {empty, singleton} x 4 listings + empty class")
+    if model:
+        vf.correspond(c, "listings on empty / singleton candidate lists", l6, o6, vf.run_model(model, l6))
+    for (v, r), line, o in zip(meta6, l6, o6):
+        f = o.split()
+        ml = spec_may_list(r)
+        c.nontrivial(("listing", v) + tuple(r[k] for k in FIELDS))
+        if f[0] != "0" or len(f) != 16:
+            c.violation("entry-point-crash", "a listing crashed / stalled on %s; row %s: %s" % ("an empty candidate list" if v == 0 else "a list of one board", line, o), {"cases": [line], "got": o})
+            continue
+        for j, name in enumerate(LISTING_EPS):
+            code, n = f[1 + 3 * j], int(f[3 + 3 * j])
+            shown = (v == 1 and ml)
+            if code != ("1" if shown else "0") or n != (1 if shown else 0):
+                c.violation("listing-degenerate:" + name, "%s on %s: code %s (0 absent, 1 with title, 2 without, 7 error), %d entries, where may_list=%s; row %s"
+                            % (name, "an empty candidate list" if v == 0 else "a candidate list holding only the board", code, n, ml, line),
+                            {"cases": [line], "got": o, "expected": "0 " + " ".join(["1 <attr> 1" if shown else "0 -1 0"] * 4)})
+        if f[13:16] != ["0", "-1", "0"]:
+            c.violation("listing-degenerate:ptt.LoadClassBoards", "ptt.LoadClassBoards of a class without children: code %s (0 nothing listed, 7 error, 8 panic), %s entries; row %s" % (f[13], f[15], line),
+                        {"cases": [line], "got": o, "expected": "... 0 -1 0"})
+
     # ---------------------------------------------------------------- inconsistent (bid, name) pair and the caller-less helper
     probe = [t for (r, t, _, g) in table[:n_consistent] if not g]
     probe = rng.sample(probe, 8000 if thorough else 2000)
@@ -259,13 +415,19 @@ def main():
     c.cov["entry_points_modelled"] = sorted(MODELLED)
     c.cov["entry_points_unmodelled"] = {n: ELSEWHERE[n] for n in reach if n in ELSEWHERE}
     c.cov["exhaustive_parts"] = ["all %d consistent rows of the 2^16 decision table (%d inconsistent rows pruned: level = 0 with a level bit), each through 11 ptt entry points, "
-                                 "5 bbs wrappers, boardPermStat and groupOp" % (n_consistent, (1 << 16) - n_consistent)]
+                                 "5 bbs wrappers, boardPermStat and groupOp" % (n_consistent, (1 << 16) - n_consistent),
+                                 "all 32 board contents for every sampled row (the content domain of op 5 is enumerated completely)"]
     c.finish(rule="every consistent row of the 16-input table, irrelevant permission/attribute bits drawn from PRNG(seed) (thorough: three draws per row); "
                   "plus group/symbolic variants of sampled rows; plus sampled rows through the inconsistent-pair and caller-less probes; "
-                  "a case is non-trivial if it is a distinct (row, group flag)",
+                  "plus, for a PRNG(seed) sample of rows holding at least 25 rows of every (deciding clause x administers x named moderator) class, "
+                  "the ten article entry points on all 32 board contents (index / pinned index / article file / template present or not, pinned "
+                  "counter loaded or not) and the four listings on an empty and on a singleton candidate list (thorough: every row on the "
+                  "four index/pinned contents); a case is non-trivial if it is a distinct (row, group flag) / (content, row) / (listing variant, row)",
              assumptions=["the caller's uid is a valid logged-in uid (what every API handler derives from the token); uid 0 / -1 are not rows of the table",
                           "friend list and moderator cache are planted directly (file `visable` reloaded by the code itself; BMCache written into the segment) — how they are built is C12",
-                          "listing paging (nBoards + 1, next cursor) is C11; here every listing is requested unpaged"])
+                          "listing paging (nBoards + 1, next cursor) is C11; here every listing is requested unpaged",
+                          "board content is varied on the target board by removing / restoring its .DIR, .DIR.bottom, article file and post template; the "
+                          "counters of the segment are those the code's own loaders (SetBTotal / SetBottomTotal) compute for that content, or 0 for 'not loaded yet'"])
 
 
 if __name__ == "__main__":
